@@ -74,6 +74,18 @@ SPECS = {
                      "codec_probe under catch_unwind, a counting global allocator and a wall-clock bound, and arbitrary-generated values "
                      "(encoded_len == bytes written; what decodes re-encodes to the consumed prefix); distinct = (kind, class, outcome) "
                      "cells; non-trivial = decode succeeded or the input was a mutated-valid / targeted one"),
+    "C15": dict(shards=(12, 48), level="fault_enumeration",
+                floors={"quick": {"retry_ok": 3000, "op:process_commit": 300, "op:write_to_storage": 100,
+                                  "op:apply_pending_commit": 50, "op:commit": 50, "op:join_group": 20,
+                                  "op:load_group": 30, "fault_point:group.write": 100, "fault_point:kp.delete": 30,
+                                  "fault_point:psk.get": 100, "fault_point:group.max_epoch_id": 50}},
+                show=("histories", "op:", "fault_point:", "retry_ok", "fault_pairs", "backend"),
+                rule="within each operation of a seeded history (propose, process proposal, late application message, commit build, "
+                     "apply pending commit, process commit, join, write_to_storage, load_group, key package generation) the storage calls of a "
+                     "fault-free twin run are counted and EVERY call position is failed once (thorough: also pairs first-fault/retry-fault); "
+                     "one evaluation = one fault point (operation must Err, member and the three stores unchanged, retry Ok, final member and "
+                     "stored history equal to the twin's); distinct = distinct (operation, storage call, position, second position); the "
+                     "enumeration inside an operation is complete, histories are sampled"),
     "C20": dict(shards=(4, 4), level="exploration", exhaustive=True,
                 floors={"quick": {"sizes_exhaustive": 13, "sizes_sampled": 12, "outside_nodes": 26}},
                 show=("sizes_", "inside_nodes", "outside_nodes", "lca_pairs"),
